@@ -1,7 +1,7 @@
 #!/bin/bash
 # Development aid (not a registered check): which functions of crate sudachi does the quick workload of every monitor
-# never execute?  Builds the harness with -Cinstrument-coverage into /tmp/vcov (removed at the end), runs shard 0 of 16
-# of every property's main stage, writes work/coverage-functions.txt (functions with zero executions) and
+# never execute?  Builds the harness with -Cinstrument-coverage into /tmp/vcov (removed at the end), runs the first NSH (default 1) shards of 16
+# of every property's main stage in parallel, writes work/coverage-functions.txt (functions with zero executions) and
 # work/coverage-files.txt (per-file line coverage).
 set -u
 cd "$(dirname "$0")/.."
@@ -12,10 +12,13 @@ mkdir -p $COV/prof $COV/out work/scratch
 (cd harness && CARGO_NET_OFFLINE=true RUSTFLAGS="-Cinstrument-coverage" cargo +nightly build --offline --profile mon --target-dir $COV/target 2>&1 | tail -2)
 VH=$COV/target/mon/vh
 for p in ${1:-C01 C02 C03 C04 C05 C06 C07 C08 C09 C10 C11 C12 C13 C14 C15 C16 C17 C18 C19 C20}; do
-  LLVM_PROFILE_FILE="$COV/prof/$p-%p.profraw" VH_REPO=/repo VH_SCRATCH=/verif/work/scratch VH_CLI=/verif/work/target-repo/release/sudachi \
+  for sh in $(seq 0 $((${NSH:-1} - 1))); do
+  LLVM_PROFILE_FILE="$COV/prof/$p-$sh-%p.profraw" VH_REPO=/repo VH_SCRATCH=/verif/work/scratch VH_CLI=/verif/work/target-repo/release/sudachi \
     VH_PYPKG=/verif/work/pypkg VH_PYDRIVER=/verif/py/drive.py \
-    timeout 600 $VH $p --tier quick --seed 1 --shard 0 --nshards 16 --stage main --out $COV/out/$p.json --budget 60 > $COV/out/$p.log 2>&1
-  echo "$p rc=$?"
+    timeout 900 $VH $p --tier quick --seed 1 --shard $sh --nshards 16 --stage main --out $COV/out/$p-$sh.json --budget 60 > $COV/out/$p-$sh.log 2>&1 &
+  done
+  wait
+  echo "$p done"
 done
 $BIN/llvm-profdata merge -sparse $COV/prof/*.profraw -o $COV/all.profdata
 $BIN/llvm-cov report $VH -instr-profile=$COV/all.profdata --ignore-filename-regex='(registry|rustc|harness/src)' > work/coverage-files.txt 2>/dev/null
